@@ -346,6 +346,10 @@ func NewVaryKeyer() VaryKeyer { return VaryKeyerFunc(makeVaryKey) }
 const noVaryHash = "0"
 
 func makeVaryKey(urlKey string, varyHeaders map[string]string) string {
+	// The id is recorded in the JSON-encoded index and read back from it: a URL key with bytes that
+	// are not valid UTF-8 (a raw "?q=\xff") must survive that unchanged, or the id read back never
+	// names the entry (nor equals a newly computed id) again.
+	urlKey = storableValue(urlKey)
 	if len(varyHeaders) == 0 {
 		return urlKey + "#" + noVaryHash // No Vary headers, so no variations
 	}
